@@ -23,20 +23,20 @@ theorem queued_during_handshake_in_order (child : Child) (s : St K) (he : s.erro
         (handshakeFinished child s err).toChild = s.toChild ++ s.queue ∧ (handshakeFinished child s err).queue = []) := by
   constructor
   · intro h1 h2 e
-    unfold eventToChild
-    rw [if_neg (by simp [he]), if_pos (by simp [h1, h2])]
+    unfold eventToChild etcCore
+    rw [if_neg (by simp [he]), if_pos (by simp [queueing, isEst, h1, h2])]
     simp [enqueue, addRouted]
   · intro h2 err
     have key : ∀ (q : List CEv) (t : St K), direct t → t.errored = false →
-        (q.foldl (eventToChild child) t).toChild = t.toChild ++ q := by
+        (q.foldl (etcCore child) t).toChild = t.toChild ++ q := by
       intro q
       induction q with
       | nil => intro t _ _; simp
       | cons e q ih =>
         intro t hd hte
-        obtain ⟨a, b, _, d⟩ := eventToChild_direct child t e hd hte
+        obtain ⟨a, b, _, d⟩ := deliver_spec child t e hd
         simp only [List.foldl_cons]
-        rw [ih _ d b, a]; simp
+        rw [etcCore_direct child t e hd hte, ih _ d (by rw [b]; exact hte), a]; simp
     unfold handshakeFinished
     rw [if_neg (by simp [h2])]
     constructor
@@ -208,6 +208,7 @@ private def idLaws : Laws idCodec where
   dec := fun b => (b, false)
   enc := fun b => b
   dec_mono := fun a b => ⟨b, rfl⟩
+  enc_nil := rfl
   feed_fed := fun _ _ => rfl
   feed_taken := by intro s x; simp [idCodec]
   feed_out := fun _ _ => ⟨rfl, rfl⟩
